@@ -29,7 +29,7 @@ VARIABLES l, alarms, scen
 
 tvars == <<vars, l, alarms, scen>>
 
-TraceW == 1..4
+TraceW == 1..8
 
 Range(s) == {s[k] : k \in DOMAIN s}
 
